@@ -348,15 +348,20 @@ void vfps::KickMap::updateSM()
     // translate offset into SM
     for (size_t i=0; i< _offset.size(); i++) {
         meshaxis_t poffs = _meshsize_kd/2+_offset[i];
-        meshaxis_t qp_int;
         //Scaled arguments of interpolation functions:
         meshindex_t jd; //numper of lower mesh point from p'
         interpol_t xip; //distance of p' from lower mesh point
-        xip = std::modf(poffs, &qp_int);
+        // lower mesh point also for negative values (modf rounds towards zero)
+        const meshaxis_t qp_int = std::floor(poffs);
+        xip = poffs-qp_int;
 
-        // kicks beyond the grid (either side) and non-finite ones move nothing in
-        if (qp_int >= 0 && qp_int < static_cast<meshaxis_t>(_meshsize_kd)) {
-            jd = qp_int;
+        /* apply() does its index arithmetics modulo 2^32 and skips source
+         * cells outside of the grid, so any displacement can be encoded:
+         * for kicks beyond the grid (either side) all nodes are outside
+         * and nothing is moved in. Non-finite ones move nothing in, either.
+         */
+        if (std::fabs(qp_int) < static_cast<meshaxis_t>(1<<30)) {
+            jd = static_cast<meshindex_t>(static_cast<int32_t>(qp_int));
             // create vectors containing interpolation coefficiants
             calcCoefficiants(smc,xip,_it);
 
